@@ -497,6 +497,7 @@ def validate(traces, name, module="TraceGfa"):
     res = run_sharded(module, TRACE_CFG, files, name + "-tlc")
     rejects = []
     distinct = 0
+    unm = [0, 0]
     for rc, out in res:
         st = stats(out)
         if rc != 0 or st is None or "No error has been found" not in out:
@@ -505,12 +506,15 @@ def validate(traces, name, module="TraceGfa"):
         for raw in parse_tuples(out, "REJECT"):
             v = tla_value(raw)
             rejects.append((v[1], v[2], sorted(v[3]), v[4]))
+        for raw in parse_tuples(out, "UNM"):
+            v = tla_value(raw)
+            unm[0] += 1
+            unm[1] += v[3]
     if distinct != nev:
         raise MachineryError("trace validation consumed %d states, expected %d" % (distinct, nev))
     for t in broken:
         rejects.append((t["id"], len(t["ev"]), ["broken-listing"], "first"))
-    return dict(rejects=rejects, states=distinct, events=nev - len(files and traces) if False else nev,
-                by_id=by_id)
+    return dict(rejects=rejects, states=distinct, events=nev, by_id=by_id, unmodelled=unm)
 
 
 def slim(t):
@@ -526,6 +530,7 @@ def replay_validate(jobs, name, extra_traces=(), chunk=6000, module="TraceGfa"):
     dict(rejects, states, by_id (slim traces), ntraces)."""
     rejects, by_id = [], {}
     states = 0
+    unm = [0, 0]
     pending = list(extra_traces)
     n = 0
     for start in range(0, max(len(jobs), 1), chunk):
@@ -539,11 +544,12 @@ def replay_validate(jobs, name, extra_traces=(), chunk=6000, module="TraceGfa"):
         r = validate(traces, "%s-%d" % (name, start // chunk), module)
         rejects += r["rejects"]
         states += r["states"]
+        unm = [unm[0] + r["unmodelled"][0], unm[1] + r["unmodelled"][1]]
         n += len(traces)
         for t in traces:
             by_id[t["id"]] = slim(t)
         del traces, r
-    return dict(rejects=rejects, states=states, by_id=by_id, ntraces=n)
+    return dict(rejects=rejects, states=states, by_id=by_id, ntraces=n, unmodelled=unm)
 
 
 # --------------------------------------------------------------------------
@@ -787,6 +793,7 @@ def run_pipeline(out, jobs_by_name, mc_specs, prop):
     out.add_cov(states=st_states + r["states"], transitions=st_trans + r["states"],
                 spec_states=st_states, spec_transitions=st_trans, spec_histories=nh,
                 traces_validated_against_impl=len(traces), events_validated=r["states"],
+                traces_left_open_by_spec=r["unmodelled"][0], events_after_open_call=r["unmodelled"][1],
                 evaluations=len(traces), distinct_nontrivial=len(nontrivial),
                 rule="histories of add/rm/disconnect/rename enumerated by TLC from MC_Gfa "
                      "(every maximal history up to the depth) plus seeded random and document-first "
